@@ -1079,7 +1079,15 @@ func (g *gen) idiom(d int, top bool) []stmtText {
 	e := func() string { return g.w(g.expr(kAny, d-1), pAssign) }
 	c := func() string { return g.condTest(d - 1).s }
 	cp := func() string { return g.w(g.condTest(d-1), pBitOr) }
-	switch r.Intn(33) {
+	switch r.Intn(35) {
+	case 33, 34: // several var declarations in one function (hoisting) with a destructuring declarator after initialised ones:
+		// the pattern must not be moved in front of the initialisers it follows (K121)
+		a, b, z := g.fresh("v"), g.fresh("v"), g.fresh("v")
+		g.kindHit("idiom:hoist-destructuring-order")
+		pat := r.Pick("["+b+"]=["+a+"]", "{p:"+b+"}={p:"+a+"}", "["+b+"]=["+h()+"(3)]", "{p:"+b+"}={p:"+h()+"(4)}", "["+b+"="+a+"]=[]")
+		first := r.Pick(a+"="+h()+"(1)", a+"=5", a+"="+e())
+		mid := r.Pick("", "", ","+g.fresh("v"), ","+g.fresh("v")+"="+h()+"(2)")
+		return one(h()+"(function(){var "+z+";"+h()+"(0);var "+first+mid+","+pat+";return["+a+","+b+"]}())", true)
 	case 31, 32: // (x, E) op y as a statement: the parentheses are unwrapped and E becomes the left operand of op (K119)
 		last := r.Pick("!("+c()+"&&"+c()+")", "!("+c()+"||"+c()+")", "!("+cp()+"=="+cp()+")", c()+"?"+e()+":"+e(), "true", "!("+c()+"&&"+c()+")")
 		op := r.Pick("&&", "&&", "||", "&&")
